@@ -657,6 +657,21 @@ func run(o hx.Opts) {
 			flush()
 		}
 	}
+	// 0. the pinned regression corpus (corpus/c16/regress.txt, relative to /verif), always first, all of it
+	for _, dir := range []string{"corpus/c16/regress.txt", "../corpus/c16/regress.txt", "/verif/corpus/c16/regress.txt"} {
+		data, err := os.ReadFile(dir)
+		if err != nil {
+			continue
+		}
+		for _, line := range strings.Split(string(data), "\n") {
+			line = strings.TrimRight(line, "\r")
+			if line == "" || strings.HasPrefix(line, "#") {
+				continue
+			}
+			add(line, "regress", 1, 1000)
+		}
+		break
+	}
 	// 1. pinned
 	for _, w := range pinned {
 		add(w, "pinned", 1, 1000)
